@@ -106,6 +106,7 @@ func (v *SliceSchema) validate(ctx *p.SchemaCtx) {
 		subCtx.ValPtr = item
 		subCtx.Path.Push(&k)
 		subCtx.Exit = false
+		subCtx.CanCatch = false
 		v.schema.validate(subCtx)
 		subCtx.Path.Pop()
 	}
@@ -199,6 +200,8 @@ func (v *SliceSchema) process(ctx *p.SchemaCtx) {
 		subCtx.Data = item
 		subCtx.ValPtr = ptr
 		subCtx.Path.Push(&k)
+		subCtx.Exit = false
+		subCtx.CanCatch = false
 		v.schema.process(subCtx)
 		subCtx.Path.Pop()
 	}
